@@ -284,10 +284,8 @@ func (tx *Tx) rangeScanOnDisk(bucket string, start, end []byte) ([]*Entry, error
 	newStart, newEnd := getNewKey(bucket, start), getNewKey(bucket, end)
 
 	for _, bptSparseIdx := range bptSparseIdxGroup {
-		if compare(newStart, bptSparseIdx.start) <= 0 &&
-			compare(bptSparseIdx.start, newEnd) <= 0 ||
-			compare(newStart, bptSparseIdx.end) <= 0 &&
-				compare(bptSparseIdx.end, newEnd) <= 0 {
+		if compare(newStart, bptSparseIdx.end) <= 0 &&
+			compare(bptSparseIdx.start, newEnd) <= 0 {
 
 			entries, err := tx.findRangeOnDisk(int64(bptSparseIdx.fID), int64(bptSparseIdx.rootOff), start, end, newStart, newEnd)
 
@@ -681,7 +679,7 @@ func (tx *Tx) prefixScanByHintBPTSparseIdx(bucket string, prefix []byte, offsetN
 	}
 
 	leftNum := limitNum - len(es)
-	if leftNum > 0 {
+	if leftNum > 0 || limitNum == ScanNoLimit {
 		entries, voff, err := tx.prefixScanOnDisk(bucket, prefix, offsetNum, leftNum)
 		if err != nil {
 			return nil, off, err
@@ -725,7 +723,7 @@ func (tx *Tx) prefixSearchScanByHintBPTSparseIdx(bucket string, prefix []byte, r
 	}
 
 	leftNum := limitNum - len(es)
-	if leftNum > 0 {
+	if leftNum > 0 || limitNum == ScanNoLimit {
 		entries, voff, err := tx.prefixSearchScanOnDisk(bucket, prefix, reg, offsetNum, leftNum)
 		if err != nil {
 			return nil, off, err
